@@ -108,7 +108,7 @@ def extract(repo=REPO, target_dir=None, quiet=True):
         os.rename(tmp, out)
         # keep the cache small: drop all but the 6 newest fact dirs
         dirs = sorted(glob.glob(os.path.join(BUILD, "facts", "*")), key=os.path.getmtime)
-        for d in dirs[:-24]:
+        for d in dirs[:-150]:
             shutil.rmtree(d, ignore_errors=True)
         return out, {"cached": False, "hash": h, "wall_s": round(time.time() - t0, 2)}
     finally:
